@@ -186,3 +186,79 @@ def native_eval(group, kind, api, flags, cap, data, nat):
             if not un and hl != before: out.append(f'`headers` not restored: len {hl} of {before}')
         return out
     return out
+
+
+# ------------------------------------------------------------------ relational properties (several native runs)
+def _fields_equal(a, b, kind):
+    return norm_impl(a, kind) == norm_impl(b, kind)
+
+
+def rel_gate(v):
+    """native confirmation for relational counterexamples. returns (status, details)"""
+    from .props.common import entry_name as en
+    rel = v['rel']; kind = v['kind']; data = bytes.fromhex(v['buf']); notes = []; confirmed = False; natives = {}
+    profs = [profile_for(v['variant'], False), profile_for(v['variant'], True)]
+    if rel == 'stream':
+        k = v['split']; entry = en(kind, v['api'])
+        for prof in profs:
+            a, b = run_native([(entry, v['flags'], v['cap'], data[:k].hex()), (entry, v['flags'], v['cap'], data.hex())], prof)
+            ia, ib = norm_impl(a['impl'], kind), norm_impl(b['impl'], kind); natives[prof] = [ia, ib]
+            bad = None
+            if ia['status'] == 'PANIC' or ib['status'] == 'PANIC': bad = 'panic'
+            elif ia['status'] == 'C':
+                if ia != ib: bad = f'prefix Complete {ia} but extended {ib}'
+            elif ia['status'].startswith('E'):
+                if ib['status'] != ia['status']: bad = f"prefix {ia['status']} but extended {ib['status']}"
+            elif ia['status'] == 'P':
+                for f in ('method', 'path', 'version', 'code', 'reason'):
+                    if ia.get(f) is not None and ia.get(f) != ib.get(f): bad = f'{f} reported with Partial = {ia.get(f)} but later {ib.get(f)}'
+            if bad: confirmed = True; notes.append(f'{prof}: {bad}')
+    elif rel == 'same':
+        # runs: list of dicts {entry, flags, cap, buf, profile(optional), shift(optional)}; all normalised observations must agree
+        for prof in profs:
+            obs = []
+            for r in v['runs']:
+                p = r.get('profile') or prof
+                nat = run_native([(r['entry'], r['flags'], r['cap'], r['buf'])], p)[0]
+                o = norm_impl(nat['impl'], r.get('kind', kind))
+                if r.get('strip_reason_sp') and isinstance(o.get('reason'), list) and len(o['reason']) == 2:
+                    pass
+                obs.append(o)
+            natives[prof] = obs
+            cmpf = v.get('compare', 'all')
+            base = obs[0]
+            for o in obs[1:]:
+                a, b = dict(base), dict(o)
+                if cmpf == 'status':
+                    a, b = {'status': a['status'], 'n': a['n']}, {'status': b['status'], 'n': b['n']}
+                if cmpf == 'no_reason':
+                    a.pop('reason', None); b.pop('reason', None)
+                if a != b: confirmed = True; notes.append(f'{prof}: {a} vs {b}'); break
+    elif rel == 'hdr_vs_msg':
+        pl = v['prefix_len']; entry = en(kind, v['api'])
+        for prof in profs:
+            a, b = run_native([(entry, v['flags'], v['cap'], data.hex()), ('headers', 0, v['cap'], data[pl:].hex())], prof)
+            ia, ib = norm_impl(a['impl'], kind), norm_impl(b['impl'], 'headers'); natives[prof] = [ia, ib]
+            bad = None
+            if ia['status'] != ib['status']: bad = f"message {ia['status']} vs parse_headers {ib['status']}"
+            elif ia['status'] == 'C':
+                hb = [[[h[0][0] + pl, h[0][1]], ([h[1][0] + pl, h[1][1]] if len(h[1]) == 2 else h[1])] for h in ib['headers']]
+                if ia['n'] != ib['n'] + pl or ia['headers'] != hb: bad = f"message n={ia['n']} {ia['headers']} vs parse_headers n={ib['n']}+{pl} {hb}"
+            if bad: confirmed = True; notes.append(f'{prof}: {bad}')
+    elif rel == 'completable':
+        entry = en(kind, v['api'])
+        for prof in profs:
+            items = [(entry, v['flags'], v['cap'], data.hex())] + [(entry, v['flags'], v['cap'], (data + bytes.fromhex(s)).hex()) for s in v['sigmas']]
+            res = run_native(items, prof)
+            st = [r['impl'].get('status') for r in res]; natives[prof] = st
+            if st[0] == 'P' and 'C' not in st[1:]:
+                confirmed = True; notes.append(f'{prof}: Partial, and none of {len(v["sigmas"])} completions reaches Complete')
+    elif rel == 'history':
+        entry = 'hist_' + ('req' if kind == 'req' else 'resp')
+        for prof in profs:
+            # history buffers separated by '-' in the hex field: hist1-hist2-...-probe
+            h = '-'.join(v['history'] + [v['buf']])
+            nat = run_native([(entry, v['flags'], v['cap'], h)], prof)[0]
+            natives[prof] = nat
+            if nat['impl'].get('differs'): confirmed = True; notes.append(f"{prof}: {nat['impl'].get('differs')}")
+    return ('confirmed' if confirmed else 'unconfirmed'), {'native': natives, 'notes': notes}
